@@ -142,6 +142,8 @@ def check_C03(ctx, rep):
     rep.floor(R, len([o for o in rep.obl if o["rule"] == R]), 10, "add/sub bodies")
     check_wrappers(ctx, rep, f, ops=[("Add", "add"), ("Sub", "sub")], rule="R13")
     check_sum(ctx, rep, f)
+    from . import rules_exact
+    rules_exact.check_exact_C03(rep, f)
 
 def check_sum(ctx, rep, f):
     """R7: Sum::sum is fold(zero, Add::add)"""
@@ -252,6 +254,8 @@ def check_C04(ctx, rep):
     rep.floor(R, len([o for o in rep.obl if o["rule"] == R]), 5, "mul bodies")
     check_wrappers(ctx, rep, f, ops=[("Mul", "mul")])
     check_fma(ctx, rep, f, "A")
+    from . import rules_exact
+    rules_exact.check_exact_C04(rep, f)
 
 # ------------------------------------------------------------------ C05
 
@@ -314,6 +318,8 @@ def check_C05(ctx, rep):
                   detail="1.0 / self")
     rep.floor("R9+R10+R11", len([o for o in rep.obl if o["rule"] in ("R9", "R10", "R11")]), 6, "division bodies")
     check_wrappers(ctx, rep, f, ops=[("Div", "div")])
+    from . import rules_exact
+    rules_exact.check_exact_C05(rep, f)
 
 # ------------------------------------------------------------------ C19
 
